@@ -130,7 +130,7 @@ def Out.after (o : Out) (used kept : List UInt64) (toks : List Tok) (evs : List 
 structure COut where
   ts : TS
   evs : List Ev
-  err : Option Err      -- the last panic raised by a cleanup, if any
+  err : Option Err      -- the last failure raised by a cleanup, if any; else the last invalid data
 deriving Inhabited
 
 /-- run one cleanup callback.  `T.Context()` during cleanup: the context has been cancelled
@@ -145,8 +145,22 @@ def CTree.run : CTree → TS → COut
       let o := k.run { ts with ctxCount := ts.ctxCount + 1 }
       { o with evs := .ctx ts.ctxCount false :: o.evs }
 
-/-- the pop-and-run loop of `T.cleanup` (a panicking cleanup does not stop the rest; the
-    latest panic wins).  Fuel bounds the number of callbacks run. -/
+/-- what `T.cleanup` ends with when an earlier callback ended with `e1` and the later ones with `e2`:
+    a failure raised by a callback is a panic (the latest one wins, as with Go's `recover`); invalid
+    data raised by a callback (a call of `Skip`, usually) is recovered and only recorded (the latest
+    one), so that it cannot replace a failure -/
+def pickErr (e1 e2 : Option Err) : Option Err :=
+  match e2 with
+  | none => e1
+  | some b =>
+    if b.isInvalid then
+      match e1 with
+      | some a => if a.isInvalid then some b else some a
+      | none => some b
+    else some b
+
+/-- the pop-and-run loop of `T.cleanup` (a panicking cleanup does not stop the rest).  Fuel bounds
+    the number of callbacks run. -/
 def runStack : Nat → TS → COut
   | 0, ts => ⟨ts, [], none⟩
   | fuel+1, ts =>
@@ -155,7 +169,7 @@ def runStack : Nat → TS → COut
     | c :: rest =>
       let o1 := c.run { ts with cleanups := rest }
       let o2 := runStack fuel o1.ts
-      ⟨o2.ts, o1.evs ++ o2.evs, match o2.err with | some e => some e | none => o1.err⟩
+      ⟨o2.ts, o1.evs ++ o2.evs, pickErr o1.err o2.err⟩
 
 def stackSize (cs : List CTree) : Nat := (cs.map CTree.size).sum
 
@@ -210,7 +224,8 @@ def runStackErrs : Nat → TS → List Err
     it cleans up after ended with `res` -/
 def cleanupCtx (res : Except Err Val) (ts : TS) : Nat :=
   let ts1 : TS := match ts.ctx with | some _ => { ts with ctx := none } | none => ts
-  let errs := runStackErrs (stackSize ts1.cleanups) ts1
+  -- invalid data raised by a callback is recovered on the spot: it is never in flight
+  let errs := (runStackErrs (stackSize ts1.cleanups) ts1).filter (fun e => !e.isInvalid)
   let cx0 := match res with | .error e => ctxPush 0 e | .ok _ => 0
   errs.dropLast.foldl ctxPush cx0
 
@@ -263,7 +278,11 @@ def Prog.run : Prog → Src → TS → Out
       let ts' : TS := { ts with failed := failed }
       let evs := Ev.innerBegin :: o.evs ++ c.evs ++ [Ev.innerEnd]
       match c.err with
-      | some e => { o with res := .error (e.nest (cleanupCtx o.res o.ts)), ts := ts', evs := evs }
+      | some e =>
+        -- invalid data from a cleanup callback rejects the attempt unless the function is failing
+        { o with res := (if e.isInvalid && (match o.res with | .error e0 => !e0.isInvalid | .ok _ => false) then o.res
+                         else .error (e.nest (cleanupCtx o.res o.ts))),
+                 ts := ts', evs := evs }
       | none =>
         match o.res with
         | .error _ => { o with ts := ts', evs := evs }
